@@ -143,19 +143,6 @@ example : AgreeOn (fun _ => some []) (fun p => if p = [42] then some [] else non
   refine ⟨?_, rfl⟩
   intro i hi; simp at hi; subst hi; rfl
 
-/-- The loaded graph does not depend on the order in which the BUILD files finish loading (hence not on
-    directory-walk order or worker count): for every permutation of the per-file results, LoadPackages +
-    BuildNodeMapFromPackages either fail in both orders or succeed in both with the same set of nodes.
-    Duplicated labels are an error in every order. -/
-theorem merge_order_independent {fs fs' : List (Bytes × Except Err Package)} (h : fs.Perm fs') :
-    sameOutcome (loadWorkspace fs) (loadWorkspace fs') :=
-  loadWorkspace_perm h
-
-/-- what "succeeds" means, independent of any order: all labels are pairwise distinct -/
-theorem load_ok_iff_labels_distinct (l : List (Bytes × Package)) :
-    (∃ ns, loadGraph l = .ok ns) ↔ ((allNodes l).map Node.label).Nodup :=
-  loadGraph_ok_iff l
-
 def tA : Target :=
   { label := ⟨[], [97]⟩
     command := []
@@ -171,6 +158,30 @@ def tA : Target :=
     fingerprint := []
     env := []
     timeout := 0 }
+
+/-- The loaded graph does not depend on the order in which the BUILD files finish loading (hence not on
+    directory-walk order or worker count): for every permutation of the per-file results, LoadPackages +
+    BuildNodeMapFromPackages either fail in both orders or succeed in both with the same set of nodes.
+    Duplicated labels are an error in every order. -/
+theorem merge_order_independent {fs fs' : List (Bytes × Except Err Package)} (h : fs.Perm fs') :
+    sameOutcome (loadWorkspace fs) (loadWorkspace fs') :=
+  loadWorkspace_perm h
+
+/-- a non-trivial instance: two files of one directory (a target, an alias of another name) and a
+    failing file — both arrival orders of the good files load both nodes, any order with the failing
+    file fails. -/
+example :
+    let pa : Package := ⟨[], [tA], []⟩
+    let pb : Package := ⟨[], [], [⟨⟨[], [98]⟩, ⟨[], [97]⟩⟩]⟩
+    (loadWorkspace [([], .ok pa), ([], .ok pb)]).toOption.map List.length = some 2 ∧
+    (loadWorkspace [([], .ok pb), ([], .ok pa)]).toOption.map List.length = some 2 ∧
+    (loadWorkspace [([], .ok pb), ([], .error .glob), ([], .ok pa)]).isOk = false ∧
+    (loadWorkspace [([], .error .glob), ([], .ok pa), ([], .ok pb)]).isOk = false := by decide
+
+/-- what "succeeds" means, independent of any order: all labels are pairwise distinct -/
+theorem load_ok_iff_labels_distinct (l : List (Bytes × Package)) :
+    (∃ ns, loadGraph l = .ok ns) ↔ ((allNodes l).map Node.label).Nodup :=
+  loadGraph_ok_iff l
 
 def pkgWithTarget : Package := ⟨[], [tA], []⟩
 def pkgWithAlias : Package := ⟨[], [], [⟨⟨[], [97]⟩, ⟨[], [98]⟩⟩]⟩
